@@ -27,19 +27,6 @@ Section Sched.
 
   (* ---- spawn phase (main thread) ---- *)
 
-  (* one blob per worker, in spawn order, each taken out of what the previous ones left of the table *)
-  Fixpoint take_blobs (t : table) (pathss : list (list bytes)) : list (blob T) * table :=
-    match pathss with
-    | [] => ([], t)
-    | ps :: rest =>
-        let (b, t1) := take_blob T hc t ps in
-        let (bs, t2) := take_blobs t1 rest in
-        (b :: bs, t2)
-    end.
-
-  Definition worker_paths (pack : node_pack) : list (list bytes) :=
-    map (fun l => [l]) (p_leaves pack) ++ map n_targets (p_nodes pack).
-
   (* the history of every rule node, read before any worker runs; None: some file is unreadable *)
   Definition read_histories (w : world) (ns : list node) : option (list history) :=
     all_some (map (fun n => read_history T teqb hr w (n_rule n)) ns).
@@ -152,9 +139,9 @@ Section Sched.
             match read_histories w1 (p_nodes pack) with
             | None => build teqb hc hl hr w rules_path goal     (* an unreadable history file: as in Build.build *)
             | Some hists =>
-                let (blobs, t') := take_blobs t (worker_paths pack) in
+                let (blobs, t') := take_blobs T hc t (worker_paths pack) in
                 let n := nworkers pack in
-                let st0 := mk_ss w1 (repeat None n) (repeat None n) [] in
+                let st0 := mk_ss (write_table T w1 t') (repeat None n) (repeat None n) [] in
                 let st1 := fold_left (work_step pack blobs hists) ord st0 in
                 let results := flat_map (fun o => match o with Some r => [r] | None => [] end) (ss_res st1) in
                 let js := fold_left (join_one T teqb hr) results (mk_js T (ss_world st1) t' [] []) in
@@ -166,7 +153,6 @@ Section Sched.
     end.
 End Sched.
 
-Arguments take_blobs {T}.
 Arguments mk_ss {T}.
 Arguments ss_world {T}.
 Arguments ss_sent {T}.
